@@ -184,7 +184,10 @@ func c36(c *an.Check) {
 		c.Undecided("GATE", "rpc/access announces Exists", lk, "unresolved anchor")
 	} else {
 		c.Gate(an.GateSpec{Construct: "rpc/access queues Exists", Fn: g,
-			Sink: func(s *an.State, ins ssa.Instruction) bool { v, ok := fieldStoreTrue(ins, "Exists"); return ok && isTrueConst(v) },
+			Sink: func(s *an.State, ins ssa.Instruction) bool {
+				v, ok := fieldStoreTrue(ins, "Exists")
+				return ok && isTrueConst(v)
+			},
 			Reqs: []an.Req{
 				an.FactReq("this is the first value (len(values)==1 after insert)", func(s *an.State, x, y ssa.Value, r an.Rel) bool {
 					return r == an.EQ && an.IsIntConst(y, 1) && lenVals(s, x)
@@ -198,7 +201,10 @@ func c36(c *an.Check) {
 		c.Undecided("GATE", "rpc/access announces Removed", lk, "unresolved anchor")
 	} else {
 		c.Gate(an.GateSpec{Construct: "rpc/access queues Removed", Fn: g,
-			Sink: func(s *an.State, ins ssa.Instruction) bool { v, ok := fieldStoreTrue(ins, "Removed"); return ok && isTrueConst(v) },
+			Sink: func(s *an.State, ins ssa.Instruction) bool {
+				v, ok := fieldStoreTrue(ins, "Removed")
+				return ok && isTrueConst(v)
+			},
 			Reqs: []an.Req{
 				an.FactReq("no value left (len(values)==0 after delete)", func(s *an.State, x, y ssa.Value, r an.Rel) bool {
 					return r == an.EQ && an.IsIntConst(y, 0) && lenVals(s, x)
@@ -328,7 +334,7 @@ func mapIs(p *an.Prog, v ssa.Value, m *ssa.MakeMap) bool {
 
 func init() {
 	register(&Def{ID: "C36", Run: c36,
-		Explain: "Decides on SSA for the remote lookup stream: (LOCKSET) every access to the captured queue/flags and the value-id set happens inside a function literal passed to HoldLock of the function's own local broadcast guard; (R1) Exists is queued only when the id was inserted and len(values)==1, Removed only when the id was a member, was deleted and len(values)==0, an Idle change only when the idle state differs from the last reported one (which is then recorded); (WAITCH) the send loop re-obtains its wait channel in every iteration; (MIRROR) component ids are base58(protobuf(request)) in both directions; the lookup directive carries the requested service id.",
-		NotCov:  "ordering of announcements on the wire over all callback interleavings; the directive bus's own value bookkeeping.",
+		Explain:     "Decides on SSA for the remote lookup stream: (LOCKSET) every access to the captured queue/flags and the value-id set happens inside a function literal passed to HoldLock of the function's own local broadcast guard; (R1) Exists is queued only when the id was inserted and len(values)==1, Removed only when the id was a member, was deleted and len(values)==0, an Idle change only when the idle state differs from the last reported one (which is then recorded); (WAITCH) the send loop re-obtains its wait channel in every iteration; (MIRROR) component ids are base58(protobuf(request)) in both directions; the lookup directive carries the requested service id.",
+		NotCov:      "ordering of announcements on the wire over all callback interleavings; the directive bus's own value bookkeeping.",
 		Assumptions: commonAssumptions})
 }
